@@ -6,7 +6,7 @@
     the code by the re-layout oracle of lib/c10.py (equivalent layouts / overrides on the implementation);
     the slab evaluation itself is not modelled yet. *)
 From Coq Require Import Reals Lra List.
-From WB Require Import Num RNum SlabLayout SlabLayoutProofs.
+From WB Require Import Num RNum Base Props World Kernels Features Bezier SlabLayout SlabLayoutProofs SlabModel SlabFeature SlabTie.
 Import ListNotations.
 
 Section C10S.
@@ -36,6 +36,37 @@ Section C10S.
   Qed.
 End C10S.
 
+Section C10T.
+  Context {F : Type} {NF : Num F}.
+
+  (** at the level of the evaluator that is compared with the implementation bit for bit (SlabFeature.v, whose table
+      is [table_of_layout]): the two re-layouts build literally the same feature, so every query has the same answer *)
+  Theorem C10_relayout_same_feature : forall fault coords dip mn mx (L : layout mkind (@mlist_ F) (@sgeom F)) tag,
+    line_of_layout fault coords dip mn mx (explicit_models L) tag = line_of_layout fault coords dip mn mx L tag /\
+    line_of_layout fault coords dip mn mx (explicit_sections L) tag = line_of_layout fault coords dip mn mx L tag.
+  Proof. intros. apply relayout_same_feature. Qed.
+
+  (** an override leaves every other row of the evaluator's table unchanged, and a query reads only the rows of the
+      two coordinates next to its foot - for the local thickness / truncation / length / models and for the distances *)
+  Theorem C10_override_local_evaluator :
+    (forall (L : layout mkind (@mlist_ F) (@sgeom F)) e j, se_coord e <> j -> (j < ly_n L)%nat ->
+       nth j (table_of_layout (override L e)) [] = nth j (table_of_layout L) []) /\
+    (forall (lf1 lf2 : @line_feature F) pd,
+       nth (pd_section pd) (lf_table lf1) [] = nth (pd_section pd) (lf_table lf2) [] ->
+       nth (S (pd_section pd)) (lf_table lf1) [] = nth (S (pd_section pd)) (lf_table lf2) [] ->
+       lf_local lf1 pd = lf_local lf2 pd) /\
+    (forall cp rp pl (g1 g2 : list (list (F * F * F))) sr b,
+       (forall i, i = cl_index (closest_point_cartesian b (fst (fst cp), snd (fst cp))) ->
+                  nth i g1 [] = nth i g2 [] /\ nth (S i) g1 [] = nth (S i) g2 []) ->
+       distance_point_from_curved_planes cp rp pl g1 sr b = distance_point_from_curved_planes cp rp pl g2 sr b).
+  Proof.
+    split; [|split].
+    - intros L e j H1 H2. exact (override_rows L e j H1 H2).
+    - intros lf1 lf2 pd H1 H2. exact (local_reads_two_rows lf1 lf2 pd H1 H2).
+    - intros cp rp pl g1 g2 sr b H. exact (distances_read_two_rows cp rp pl g1 g2 sr b H).
+  Qed.
+End C10T.
+
 Section C10R.
   Variable sp : special.
   Local Existing Instance Rnum.
@@ -60,3 +91,5 @@ Print Assumptions C10_explicit_models.
 Print Assumptions C10_explicit_sections.
 Print Assumptions C10_override_local.
 Print Assumptions C10_interpolation.
+Print Assumptions C10_relayout_same_feature.
+Print Assumptions C10_override_local_evaluator.
